@@ -137,6 +137,39 @@ pub fn check(c: &Case, rec: &mut Rec) -> CheckResult {
             }
             out.push(("MapBuilder fed by a union of part-maps", b.into_inner().map_err(fe)?));
         }
+        // caller-side variations that must not matter: buffer capacity, inspecting the
+        // builder between inserts, iterators without a size hint, a fresh thread
+        let vary = c.pairs.len() > 100 || fnv(&ref0) % 3 == 0;
+        for cap in if vary { vec![0usize, 7, 100_000] } else { vec![] } {
+            let mut b = fst::raw::Builder::new(Vec::with_capacity(cap)).map_err(fe)?;
+            for (i, (k, v)) in c.pairs.iter().enumerate() {
+                if c.set { b.add(k) } else { b.insert(k, *v) }.map_err(fe)?;
+                if i % 3 == 0 {
+                    let _ = b.bytes_written();
+                    let _ = b.get_ref().len();
+                }
+            }
+            out.push(("raw builder over Vec::with_capacity(n), inspected between inserts", b.into_inner().map_err(fe)?));
+        }
+        if !vary {
+        } else if c.set {
+            let s = fst::Set::from_iter(c.pairs.iter().map(|p| &p.0).filter(|_| true)).map_err(fe)?;
+            out.push(("Set::from_iter over an iterator without an exact size hint", s.into_fst().into_inner()));
+        } else {
+            let m = fst::Map::from_iter(c.pairs.iter().map(|p| (&p.0, p.1)).filter(|_| true)).map_err(fe)?;
+            out.push(("Map::from_iter over an iterator without an exact size hint", m.into_fst().into_inner()));
+        }
+        if vary {
+            let (pairs, set, geom) = (c.pairs.clone(), c.set, c.geom);
+            let bytes = std::thread::spawn(move || {
+                fst::raw::verif::set_registry_geometry(geom);
+                gen::build_plain(&pairs, set)
+            })
+            .join()
+            .map_err(|_| Fail::new("panic", "builder thread panicked".to_string()))?
+            .map_err(|e| Fail::new("build-error", e))?;
+            out.push(("the first builder of a freshly spawned thread", bytes));
+        }
         // a sink that accepts a few bytes at a time
         let sink = ScriptSink::new(vec![], 3);
         let mut b = fst::raw::Builder::new(sink).map_err(fe)?;
@@ -200,6 +233,11 @@ pub fn child_digest(args: &[String]) -> i32 {
     if let Some(f) = args.get(1).and_then(|n| Front::from_name(n)) {
         input = FstInput { front: f, ..input };
     }
+    if let Some(n) = args.get(2).and_then(|n| n.parse::<usize>().ok()) {
+        // a process that cannot allocate large blocks: building may abort, but
+        // must not silently produce different bytes
+        crate::alloc::refuse_allocations_of(n);
+    }
     match gen::build(&input) {
         Ok(b) => {
             println!("{:016x} {}", fnv(&b.bytes), b.bytes.len());
@@ -239,6 +277,18 @@ fn cross_process(e: &Engine, n: usize) {
                 return Err(Fail::new("bytes-differ-across-processes", format!("a child process building the same sequence through {} produced digest/len '{}', this process '{}' (recipe {}, geometry {:?})", f.name(), got, want, r.to_json(), geom)));
             }
         }
+        // the same build in a process that is refused every allocation >= 256 KiB
+        // (only meaningful under the default geometry): it may die, it must not
+        // report a different file
+        if geom.is_none() {
+            let out = std::process::Command::new(&exe).arg("child-digest").arg(&path).arg(fronts[0].name()).arg("262144").output().map_err(|e| Fail::new("harness-io", e.to_string()))?;
+            let got = String::from_utf8_lossy(&out.stdout).trim().to_string();
+            if out.status.success() && !got.is_empty() && got != want {
+                let _ = std::fs::remove_file(&path);
+                return Err(Fail::new("bytes-differ-across-processes", format!("a child process that is refused allocations >= 256 KiB produced digest/len '{}' for the same sequence, this process '{}' (recipe {})", got, want, r.to_json())));
+            }
+            rec.class(if out.status.success() { "alloc_limited_child_same_bytes" } else { "alloc_limited_child_died(accepted)" });
+        }
         let _ = std::fs::remove_file(&path);
         rec.nontrivial(crate::engine::mix(input.hash(), 0xc15));
         rec.class("cross_process_comparison");
@@ -267,10 +317,13 @@ pub fn run(e: &Engine) {
         |c| c.to_json(),
         check,
     );
-    let items: Vec<u64> = (0..e.tier.pick(6u64, 40)).collect();
+    let items: Vec<u64> = (0..e.tier.pick(7u64, 40)).collect();
     let seed = e.seed;
     e.run_list("larger-sequences-threads", &items, |i| json!({"recipe_case": i}), |i, rec| {
-        let r = gen::Recipe { kind: 1, n: 20_000 + *i * 1000, seed: crate::engine::mix(seed, *i), fanout: 4, keylen: 10, values: (*i % 3) as u8 };
+        // one sequence beyond 10^5 keys: bulk entry points see large exact size hints
+        let n = if *i == 6 { 130_000 } else { 20_000 + *i * 1000 };
+        let values = if *i == 6 { 1 } else { (*i % 3) as u8 }; // the long one is a map (bulk map paths)
+        let r = gen::Recipe { kind: 1, n, seed: crate::engine::mix(seed, *i), fanout: 4, keylen: 10, values };
         let c = Case { pairs: r.pairs(), set: r.values == 0, ty: 0, geom: if i % 2 == 0 { None } else { Some((64, 2)) }, parts: vec![0, 1, 2, 1, 0, 3], threads: true };
         check(&c, rec)
     });
